@@ -28,3 +28,4 @@ func vNote(s string)                            {}
 func vSymbolic() bool                           { return true }
 func vAll(c ...bool) bool                        { return false }
 func vAny(c ...bool) bool                        { return false }
+func vPickString(idx int, options ...string) string { return "" }
